@@ -128,8 +128,11 @@ func buildReply(m mode, req *dns.Msg, netw string, ident net.IP) []byte {
 	switch m {
 	case mTrunc:
 		if netw == "udp" {
+			// the truncated reply carries a marked identity (third octet +10)
 			resp.Truncated = true
-			resp.Answer = nil
+			ip := append(net.IP(nil), ident.To4()...)
+			ip[2] += 10
+			resp.Answer[0].(*dns.A).A = ip
 		}
 	case mServfail:
 		resp.Rcode = dns.RcodeServerFailure
@@ -184,6 +187,9 @@ type stub struct {
 	conns map[net.Conn]struct{}
 	log   []rec
 	wg    sync.WaitGroup
+	// tornDown: the last shut closed accepted TCP connections, i.e. the
+	// handler is left with dead pooled connections to this upstream.
+	tornDown bool
 }
 
 var (
@@ -262,6 +268,7 @@ func (s *stub) shut() {
 	if s.open {
 		_ = s.pc.Close()
 		_ = s.ln.Close()
+		s.tornDown = len(s.conns) > 0
 		for c := range s.conns {
 			_ = c.Close()
 		}
@@ -372,6 +379,14 @@ func (s *stub) serveConn(c net.Conn) {
 	}
 }
 
+func (s *stub) takeTornDown() bool {
+	s.mu.Lock()
+	defer s.mu.Unlock()
+	t := s.tornDown
+	s.tornDown = false
+	return t
+}
+
 func (s *stub) logLen() int { s.mu.Lock(); defer s.mu.Unlock(); return len(s.log) }
 
 func (s *stub) logFrom(i int) []rec {
@@ -462,6 +477,7 @@ type caseSpec struct {
 	F         int        `json:"fallbacks"`
 	BackoffMs int64      `json:"backoff_ms"`
 	TimeoutMs int64      `json:"upstream_timeout_ms"`
+	Nets      []string   `json:"networks"` // "any" (UDP, TCP after truncation), "udp", "tcp": mains, then fallbacks
 	Steps     []stepSpec `json:"steps"`
 }
 
@@ -505,6 +521,17 @@ func genCase(r *vkit.Run, stream string, idx, nSteps int) caseSpec {
 	cs.BackoffMs = bo.Milliseconds()
 	canWait := bo > 0 && bo < time.Minute
 	n := cs.M + cs.F
+	// networks: a quarter of the cases all-any, a quarter all-tcp, the rest mixed
+	for i := 0; i < n; i++ {
+		switch (idx / 9) % 4 {
+		case 0:
+			cs.Nets = append(cs.Nets, "any")
+		case 1:
+			cs.Nets = append(cs.Nets, "tcp")
+		default:
+			cs.Nets = append(cs.Nets, []string{"any", "tcp", "tcp", "udp"}[rng.IntN(4)])
+		}
+	}
 	cur := make([]mode, n)
 	for i := range cur {
 		if rng.IntN(10) < 7 {
@@ -542,7 +569,53 @@ func genCase(r *vkit.Run, stream string, idx, nSteps int) caseSpec {
 	if cs.F > 0 && rng.IntN(4) == 0 {
 		add("init", "")
 	}
-	if idx%2 == 1 {
+	tpl := (idx / 36) % 4 // 0: random walk only, 1,2: back-off template, 3: pooled-connection template
+	if tpl == 3 {
+		// every upstream answers (the handler pools its connections), then
+		// upstreams die with their accepted connections torn down and the
+		// next query comes before any Refresh.
+		for i := range cur {
+			cur[i] = []mode{mUp, mUp, mUpCase, mTrunc}[rng.IntN(4)]
+		}
+		for k := 0; k < 2*cs.M+1; k++ {
+			add("query", "")
+		}
+		all := rng.IntN(2) == 0
+		killed := 0
+		for i := 0; i < cs.M; i++ {
+			if all || rng.IntN(2) == 0 || (i == cs.M-1 && killed == 0) {
+				cur[i] = mClosed
+				killed++
+			}
+		}
+		if cs.F > 0 {
+			for k := 0; k < cs.F+2; k++ {
+				add("query", "")
+			}
+			for i := cs.M; i < n; i++ {
+				cur[i] = mClosed
+			}
+			add("query", "")
+			add("query", "")
+			for i := cs.M; i < n; i++ {
+				cur[i] = mUp
+			}
+			add("query", "")
+			add("refresh", "")
+			add("query", "")
+			add("query", "")
+		} else {
+			add("query", "")
+			add("query", "")
+			add("query", "")
+			for i := 0; i < cs.M; i++ {
+				cur[i] = mUp
+			}
+			add("query", "")
+			add("query", "")
+		}
+	}
+	if tpl == 1 || tpl == 2 {
 		// template: fail -> detect -> (recover) -> refresh inside back-off ->
 		// refresh beyond back-off -> traffic returns; random details.
 		for i := 0; i < cs.M; i++ {
@@ -690,7 +763,11 @@ func has(a []int, x int) bool {
 	return false
 }
 
-func fbOutcome(fm mode, f int) (outcome, string) {
+func fbOutcome(fm mode, f int, netw string) (outcome, string) {
+	if fm == mTrunc && netw == "udp" {
+		// a UDP-only upstream cannot retry over TCP: its truncated reply is the reply
+		return outcome{Kind: "truncated", Role: "fb", Idx: f}, "fb-truncated-relayed"
+	}
 	switch fm.class() {
 	case clAnswer:
 		return outcome{Kind: "answer", Role: "fb", Idx: f}, "fb-answer"
@@ -704,12 +781,13 @@ func fbOutcome(fm mode, f int) (outcome, string) {
 }
 
 // scenarios lists every legitimate course of one query given the active set.
-func scenarios(active []bool, mm, fm []mode) []scenario {
+func scenarios(active []bool, mm, fm []mode, nets []string) []scenario {
+	mnet, fnet := nets[:len(mm)], nets[len(mm):]
 	var out []scenario
 	anyActive := false
 	withFb := func(main int, prefix string) {
 		for f := range fm {
-			o, t := fbOutcome(fm[f], f)
+			o, t := fbOutcome(fm[f], f, fnet[f])
 			out = append(out, scenario{Main: main, Fb: f, Out: o, Tag: prefix + "->" + t})
 		}
 	}
@@ -720,6 +798,10 @@ func scenarios(active []bool, mm, fm []mode) []scenario {
 		anyActive = true
 		switch mm[i].class() {
 		case clAnswer:
+			if mm[i] == mTrunc && mnet[i] == "udp" {
+				out = append(out, scenario{Main: i, Fb: -1, Out: outcome{Kind: "truncated", Role: "main", Idx: i}, Tag: "main-truncated-relayed"})
+				break
+			}
 			out = append(out, scenario{Main: i, Fb: -1, Out: outcome{Kind: "answer", Role: "main", Idx: i}, Tag: "main-answer:" + mm[i].String()})
 		case clServfail:
 			out = append(out, scenario{Main: i, Fb: -1, Out: outcome{Kind: "servfail", Role: "main", Idx: i}, Tag: "main-servfail-relayed"})
@@ -782,13 +864,13 @@ func (s scenario) matches(o queryObs, mm, fm []mode) bool {
 
 // judge compares one observed query with the model.  cand holds the active sets
 // the query may legitimately have seen (one for sequential steps).
-func judge(cand [][]bool, mm, fm []mode, o queryObs) (tag, key, what string, exp []scenario) {
+func judge(cand [][]bool, mm, fm []mode, nets []string, o queryObs) (tag, key, what string, exp []scenario, hit scenario) {
 	for _, a := range cand {
-		exp = append(exp, scenarios(a, mm, fm)...)
+		exp = append(exp, scenarios(a, mm, fm, nets)...)
 	}
 	for _, s := range exp {
 		if s.matches(o, mm, fm) {
-			return s.Tag, "", "", exp
+			return s.Tag, "", "", exp, s
 		}
 	}
 	mains := union(o.StubMains, o.ExtraMains)
@@ -810,14 +892,14 @@ func judge(cand [][]bool, mm, fm []mode, o queryObs) (tag, key, what string, exp
 	for _, m := range mains {
 		if !activeAny[m] {
 			return "", "query:failed-main-used-before-recovery",
-				"a main upstream whose health probe failed received a query although no later probe of it has succeeded after the back-off period", exp
+				"a main upstream whose health probe failed received a query although no later probe of it has succeeded after the back-off period", exp, scenario{Main: -1, Fb: -1}
 		}
 	}
 	if len(mains) > 1 {
-		return "", "query:multiple-mains-tried", "one query was sent to more than one main upstream", exp
+		return "", "query:multiple-mains-tried", "one query was sent to more than one main upstream", exp, scenario{Main: -1, Fb: -1}
 	}
 	if len(fbs) > 1 || o.FbAttempts > 1 {
-		return "", "query:fallback-tried-more-than-once", "one query was tried on fallback upstreams more than once", exp
+		return "", "query:fallback-tried-more-than-once", "one query was tried on fallback upstreams more than once", exp, scenario{Main: -1, Fb: -1}
 	}
 	closedActive := false
 	for i := range mm {
@@ -830,7 +912,7 @@ func judge(cand [][]bool, mm, fm []mode, o queryObs) (tag, key, what string, exp
 		if len(fm) == 0 {
 			k += ":no-fallbacks"
 		}
-		return "", k, "healthy main upstreams exist but the query was not sent to any of them", exp
+		return "", k, "healthy main upstreams exist but the query was not sent to any of them", exp, scenario{Main: -1, Fb: -1}
 	}
 	mcls := "unknown"
 	if len(mains) == 1 {
@@ -842,7 +924,7 @@ func judge(cand [][]bool, mm, fm []mode, o queryObs) (tag, key, what string, exp
 	}
 	if len(fbs) > 0 && (mcls == clAnswer || mcls == clServfail || mcls == clGarbage) {
 		return "", "query:fallback-without-network-error:" + mcls,
-			"the chosen main upstream replied (no network error) and a healthy main exists, yet a fallback was tried", exp
+			"the chosen main upstream replied (no network error) and a healthy main exists, yet a fallback was tried", exp, scenario{Main: -1, Fb: -1}
 	}
 	closedFb := false
 	for _, m := range fm {
@@ -851,7 +933,7 @@ func judge(cand [][]bool, mm, fm []mode, o queryObs) (tag, key, what string, exp
 		}
 	}
 	if len(fm) > 0 && (mcls == clNetErr || mcls == "none") && len(fbs) == 0 && !closedFb {
-		return "", "query:fallback-not-tried", "the main upstream failed with a network error (or none is healthy) but no fallback was tried", exp
+		return "", "query:fallback-not-tried", "the main upstream failed with a network error (or none is healthy) but no fallback was tried", exp, scenario{Main: -1, Fb: -1}
 	}
 	want := map[string]bool{}
 	for _, s := range exp {
@@ -868,7 +950,7 @@ func judge(cand [][]bool, mm, fm []mode, o queryObs) (tag, key, what string, exp
 	sort.Strings(ws)
 	got := strings.TrimSuffix(o.Out.Kind+"-"+o.Out.Role, "-")
 	return "", "query:result:want-" + strings.Join(ws, "|") + ":got-" + got,
-		"the client-visible result is not the one the contacted upstreams' behaviour calls for", exp
+		"the client-visible result is not the one the contacted upstreams' behaviour calls for", exp, scenario{Main: -1, Fb: -1}
 }
 
 // identity of the answer: A record 10.17.<1 main|2 fallback>.<idx>.
@@ -877,9 +959,9 @@ func identify(resp *dns.Msg) (role string, idx int) {
 		if a, ok := rr.(*dns.A); ok {
 			ip := a.A.To4()
 			if ip != nil && ip[0] == 10 && ip[1] == 17 {
-				if ip[2] == 1 {
+				if ip[2] == 1 || ip[2] == 11 {
 					return "main", int(ip[3])
-				} else if ip[2] == 2 {
+				} else if ip[2] == 2 || ip[2] == 12 {
 					return "fb", int(ip[3])
 				}
 			}
@@ -915,12 +997,23 @@ type fixture struct {
 	lst        *listener
 	h          *forward.Handler
 	hcSuffix   string
+	nets       []string
 }
 
 func (fx *fixture) all() []*stub { return append(append([]*stub{}, fx.mains...), fx.fbs...) }
 
-func newFixture(M, F int) (*fixture, error) {
-	fx := &fixture{byAddr: map[string]*stub{}, lst: &listener{}}
+func netOf(s string) forward.Network {
+	switch s {
+	case "tcp":
+		return forward.NetworkTCP
+	case "udp":
+		return forward.NetworkUDP
+	}
+	return forward.NetworkAny
+}
+
+func newFixture(M, F int, nets []string) (*fixture, error) {
+	fx := &fixture{byAddr: map[string]*stub{}, lst: &listener{}, nets: nets}
 	for i := 0; i < M; i++ {
 		s, err := newStub("main", i)
 		if err != nil {
@@ -951,13 +1044,13 @@ func (fx *fixture) newHandler(tag string, backoff, initDur time.Duration) {
 		HealthcheckBackoffDuration: backoff,
 		HealthcheckInitDuration:    initDur,
 	}
-	for _, s := range fx.mains {
+	for i, s := range fx.mains {
 		conf.UpstreamsAddresses = append(conf.UpstreamsAddresses, &forward.UpstreamPlainConfig{
-			Network: forward.NetworkAny, Address: s.addr, Timeout: upsTimeout})
+			Network: netOf(fx.nets[i]), Address: s.addr, Timeout: upsTimeout})
 	}
-	for _, s := range fx.fbs {
+	for i, s := range fx.fbs {
 		conf.FallbackAddresses = append(conf.FallbackAddresses, &forward.UpstreamPlainConfig{
-			Network: forward.NetworkAny, Address: s.addr, Timeout: upsTimeout})
+			Network: netOf(fx.nets[len(fx.mains)+i]), Address: s.addr, Timeout: upsTimeout})
 	}
 	fx.h = forward.NewHandler(conf)
 }
@@ -1065,10 +1158,12 @@ func (fx *fixture) observe(req *dns.Msg, rw *recRW, err error, recs [][]rec) (o 
 		mismatch = replyMismatch(req, resp)
 		role, idx := identify(resp)
 		kind := "other"
-		switch resp.Rcode {
-		case dns.RcodeSuccess:
+		switch {
+		case resp.Truncated:
+			kind = "truncated"
+		case resp.Rcode == dns.RcodeSuccess:
 			kind = "answer"
-		case dns.RcodeServerFailure:
+		case resp.Rcode == dns.RcodeServerFailure:
 			kind = "servfail"
 		}
 		o.Out = outcome{Kind: kind, Role: role, Idx: idx}
@@ -1115,7 +1210,7 @@ func runCase(r *vkit.Run, cs caseSpec) {
 		}
 	}()
 	backoff := time.Duration(cs.BackoffMs) * time.Millisecond
-	fx, err := newFixture(cs.M, cs.F)
+	fx, err := newFixture(cs.M, cs.F, cs.Nets)
 	if err != nil {
 		r.Bucket("abandoned_no_port", 1)
 		return
@@ -1133,6 +1228,7 @@ func runCase(r *vkit.Run, cs caseSpec) {
 	downAtRefresh := make([]bool, cs.M) // F == 0: main was failing during some Refresh
 	tags := map[string]bool{}
 	logPos := make([]int, cs.M+cs.F)
+	dead := make([]bool, cs.M+cs.F) // the handler holds a pooled TCP connection that the stub tore down
 	tag := fmt.Sprintf("%s%d", cs.Stream, cs.Idx)
 	completed := 0
 
@@ -1177,6 +1273,12 @@ func runCase(r *vkit.Run, cs caseSpec) {
 		}
 		if fx.h == nil && st.Op != "init" {
 			fx.newHandler(tag, backoff, 0)
+		}
+		for i, s := range fx.all() {
+			if s.takeTornDown() {
+				dead[i] = true
+				r.Bucket("dead_pooled_tcp:teardowns", 1)
+			}
 		}
 		if st.Wait != "" {
 			// measured from the latest possible instant of the youngest failed probe
@@ -1263,6 +1365,12 @@ func runCase(r *vkit.Run, cs caseSpec) {
 			tags["ambiguous"] = true
 			return
 		}
+		for i, rs := range recs {
+			if len(rs) > 0 && dead[i] {
+				dead[i] = false // the upstream is back; the dead connection was replaced
+				r.Bucket("dead_pooled_tcp:reconnected", 1)
+			}
+		}
 
 		switch st.Op {
 		case "query":
@@ -1281,15 +1389,54 @@ func runCase(r *vkit.Run, cs caseSpec) {
 			if neither {
 				r.Bucket("queries_neither_error_nor_response", 1)
 			}
-			tg, key, what, exp := judge([][]bool{active}, mm, fm, o)
+			tg, key, what, exp, hit := judge([][]bool{active}, mm, fm, cs.Nets, o)
 			tr.Exp = exp
 			tr.Active = append([]bool(nil), active...)
 			trace = append(trace, tr)
 			if key != "" {
-				fail(key, what, si, map[string]any{"model_active": active, "main_modes": st.Modes[:cs.M], "fallback_modes": st.Modes[cs.M:]})
+				dp := []int{}
+				for i, d := range dead {
+					if d {
+						dp = append(dp, i)
+					}
+				}
+				fail(key, what, si, map[string]any{"model_active": active, "main_modes": st.Modes[:cs.M], "fallback_modes": st.Modes[cs.M:],
+					"stubs_whose_pooled_tcp_connections_were_torn_down": dp})
 				return
 			}
 			tags[tg] = true
+			// a closed upstream to which the handler still holds a pooled TCP
+			// connection: dead however the OS reports it (EOF, RST, refused)
+			if m := hit.Main; m >= 0 && mm[m] == mClosed && dead[m] {
+				nClosed := 0
+				for i := range mm {
+					if active[i] && mm[i] == mClosed {
+						nClosed++
+					}
+				}
+				if nClosed == 1 || has(o.ExtraMains, m) {
+					dead[m] = false
+					if cs.F > 0 {
+						r.Bucket("dead_pooled_tcp:main_failover", 1)
+						tags["failover-from-dead-pooled-tcp"] = true
+					} else {
+						r.Bucket("dead_pooled_tcp:main_no_fallbacks_error", 1)
+					}
+				}
+			}
+			if f := hit.Fb; f >= 0 && fm[f] == mClosed && dead[cs.M+f] {
+				nClosed := 0
+				for i := range fm {
+					if fm[i] == mClosed {
+						nClosed++
+					}
+				}
+				if nClosed == 1 || has(o.ExtraFbs, f) {
+					dead[cs.M+f] = false
+					r.Bucket("dead_pooled_tcp:fallback_error", 1)
+					tags["dead-pooled-tcp-fallback"] = true
+				}
+			}
 			r.Bucket("queries", 1)
 			countQuery(r, tg)
 			if o.Out.Role == "main" && o.Out.Kind == "answer" && everFailed[o.Out.Idx] {
@@ -1378,6 +1525,10 @@ func runCase(r *vkit.Run, cs caseSpec) {
 					allOK = false
 					state[i].U = c1
 				case "probe":
+					if mm[i] == mClosed && dead[i] {
+						dead[i] = false
+						r.Bucket("dead_pooled_tcp:probe_failed", 1)
+					}
 					if !probed && mm[i] != mClosed {
 						trace = append(trace, tr)
 						fail("refresh:eligible-main-not-probed", "a health-check round did not probe a main upstream that is not in back-off", si,
@@ -1440,6 +1591,8 @@ func countQuery(r *vkit.Run, tg string) {
 		r.Bucket("queries_main_answer_tcp_after_truncation", 1)
 	case strings.HasPrefix(tg, "main-answer"):
 		r.Bucket("queries_main_answer", 1)
+	case strings.HasPrefix(tg, "main-truncated"):
+		r.Bucket("queries_main_truncated_reply_relayed_udp_only", 1)
 	case strings.HasPrefix(tg, "main-servfail"):
 		r.Bucket("queries_main_servfail_relayed", 1)
 	case strings.HasPrefix(tg, "main-garbage-rejected:"):
@@ -1528,7 +1681,18 @@ func runConcurrent(r *vkit.Run, idx int) {
 			r.Violation("panic:forward-handler", fmt.Sprintf("panic in the concurrent phase: %v", p), map[string]any{"instance": idx, "rounds": spec})
 		}
 	}()
-	fx, err := newFixture(M, F)
+	nets := make([]string, M+F)
+	for i := range nets {
+		switch idx % 3 {
+		case 0:
+			nets[i] = "any"
+		case 1:
+			nets[i] = "tcp"
+		default:
+			nets[i] = []string{"any", "tcp", "udp"}[rng.IntN(3)]
+		}
+	}
+	fx, err := newFixture(M, F, nets)
 	if err != nil {
 		r.Bucket("abandoned_no_port", 1)
 		return
@@ -1560,6 +1724,10 @@ func runConcurrent(r *vkit.Run, idx int) {
 			return
 		}
 		mm, fm := modes[:M], modes[M:]
+		torn := make([]bool, M+F)
+		for i, s := range fx.all() {
+			torn[i] = s.takeTornDown()
+		}
 		after := make([]bool, M)
 		for i := range after {
 			after[i] = mm[i].probeOK()
@@ -1663,7 +1831,7 @@ func runConcurrent(r *vkit.Run, idx int) {
 		}
 		check := func(q qr, cand [][]bool, phase string) bool {
 			o, mismatch, both, _ := fx.observe(q.req, q.rw, q.err, pick(q.name))
-			w := map[string]any{"instance": idx, "mains": M, "fallbacks": F, "round": rd, "rounds": spec, "phase": phase,
+			w := map[string]any{"instance": idx, "mains": M, "fallbacks": F, "networks": nets, "round": rd, "rounds": spec, "phase": phase,
 				"query": q.name, "observed": o, "active_before": active, "active_after": after,
 				"query_started_after_last_refresh_returned": q.c0.After(refreshEnd)}
 			if mismatch != "" {
@@ -1674,7 +1842,7 @@ func runConcurrent(r *vkit.Run, idx int) {
 				r.Violation("query:error-and-response", "ServeDNS wrote a response and returned an error", w)
 				return false
 			}
-			tg, key, what, exp := judge(cand, mm, fm, o)
+			tg, key, what, exp, hit := judge(cand, mm, fm, nets, o)
 			if key != "" {
 				w["legitimate"] = exp
 				r.Violation(key, what+" (queries concurrent with Refresh)", w)
@@ -1682,6 +1850,9 @@ func runConcurrent(r *vkit.Run, idx int) {
 			}
 			countQuery(r, tg)
 			r.Bucket("concurrent_phase_queries", 1)
+			if m := hit.Main; m >= 0 && mm[m] == mClosed && torn[m] && len(fm) > 0 {
+				r.Bucket("dead_pooled_tcp:concurrent_main_failover", 1)
+			}
 			return true
 		}
 		for _, qs := range results {
